@@ -239,19 +239,25 @@ def finish_use(ctx, world, ev):
 
                     def has_msg(t):
                         return any(x == cm.msg for x in subterms(t))
-                    for t in subterms(o.value):
+                    kpart = o.value
+                    if is_app(kpart, "H") and is_app(kpart.args[0], "cat"):
+                        kpart = kpart.args[0].args[-1]     # the shared-element field; the other slots are C17's
+                    for t in subterms(kpart):
                         if not isinstance(t, App) or t == payload:
                             continue
                         for a in t.args:
                             if a == payload:
                                 if t.f == ".bytes_to_element":
                                     dec.append(t)
-                                elif t.f not in ("cat", "min2", "max2"):
+                                else:
                                     bad.append("%s(payload)" % t.f)
                             elif has_msg(a) and not isinstance(a, App):
                                 bad.append("%s(%s)" % (t.f, show(a, maxdepth=2)))
                             elif has_msg(a) and isinstance(a, App) and a.f == "slice" and a != payload:
                                 bad.append("%s(%s)" % (t.f, show(a, maxdepth=3)))
+                    for t in subterms(kpart):
+                        if is_app(t, ".bytes_to_element") and t not in dec:
+                            bad.append("decoder applied to %s" % show(t.args[1], maxdepth=3) if len(t.args) > 1 else "decoder")
                     ok = not bad and len({d._key for d in dec}) == 1
                     ctx.ob("D5", "%s.finish" % cname, ok,
                            "peer bytes reach K only through group.bytes_to_element(payload)" if ok else
